@@ -282,18 +282,15 @@ theorem sdiv_unfold (x y : List Bool) :
 /-- **signed division, all widths** (`n + 1` bits): for a non-zero divisor, and except for `MIN / -1`
 (which the compiled code reports as an overflow), the divider returns the quotient rounded towards zero
 and the remainder with the sign of the dividend -/
-theorem sdiv_spec (a b : Bool) (x y : List Bool) (h : x.length = y.length) (hy : toInt (b :: y) ≠ 0)
-    (hmin : ¬ (toInt (a :: x) = -(2 : Int) ^ x.length ∧ toInt (b :: y) = -1)) :
-    toInt (sdiv (a :: x) (b :: y)).1 = Int.tdiv (toInt (a :: x)) (toInt (b :: y)) ∧
+theorem sdiv_spec' (a b : Bool) (x y : List Bool) (h : x.length = y.length) (hy : toInt (b :: y) ≠ 0) :
+    (¬ (toInt (a :: x) = -(2 : Int) ^ x.length ∧ toInt (b :: y) = -1) →
+      toInt (sdiv (a :: x) (b :: y)).1 = Int.tdiv (toInt (a :: x)) (toInt (b :: y))) ∧
     toInt (sdiv (a :: x) (b :: y)).2 = Int.tmod (toInt (a :: x)) (toInt (b :: y)) := by
   rw [sdiv_unfold]
   simp only [List.headD_cons]
   obtain ⟨hX, hxs, hXlt⟩ := abs_cases a x
   obtain ⟨hY, hys, _⟩ := abs_cases b y
   rw [← h] at hY
-  have hmin' : ¬ (toInt (a :: x) = -((2 ^ x.length : Nat) : Int) ∧ toInt (b :: y) = -1) := by
-    simpa using hmin
-  clear hmin
   generalize hxl : (if a = true then neg (a :: x) else a :: x) = xa at hX hxs hXlt ⊢
   generalize hyl : (if b = true then neg (b :: y) else b :: y) = ya at hY hys ⊢
   have hlxa : xa.length = x.length + 1 := by rw [← hxl]; split <;> simp [neg_length]
@@ -309,6 +306,10 @@ theorem sdiv_spec (a b : Bool) (x y : List Bool) (h : x.length = y.length) (hy :
   have hrlt' : toNat (udiv xa ya).2 < 2 ^ x.length := by omega
   constructor
   · -- quotient
+    intro hmin
+    have hmin' : ¬ (toInt (a :: x) = -((2 ^ x.length : Nat) : Int) ∧ toInt (b :: y) = -1) := by
+      simpa using hmin
+    clear hmin
     cases a <;> cases b <;> simp only [Bool.xor_self, Bool.xor_true, Bool.xor_false, Bool.not_true, Bool.not_false,
       Bool.false_eq_true, if_true, if_false] at hxs hys hxl hyl ⊢ <;>
       (try rw [hxl] at hxs) <;> (try rw [hyl] at hys) <;> rw [hxl, hyl]
@@ -345,6 +346,12 @@ theorem sdiv_spec (a b : Bool) (x y : List Bool) (h : x.length = y.length) (hy :
     · rw [toInt_of_lt _ x.length hrl hrlt', hr, hxs, hys, Int.tmod_neg, Int.ofNat_tmod]
     · rw [toInt_neg_of_le _ x.length hrl (by omega), hr, hxs, hys, Int.neg_tmod, Int.ofNat_tmod]
     · rw [toInt_neg_of_le _ x.length hrl (by omega), hr, hxs, hys, Int.neg_tmod, Int.tmod_neg, Int.ofNat_tmod]
+
+theorem sdiv_spec (a b : Bool) (x y : List Bool) (h : x.length = y.length) (hy : toInt (b :: y) ≠ 0)
+    (hmin : ¬ (toInt (a :: x) = -(2 : Int) ^ x.length ∧ toInt (b :: y) = -1)) :
+    toInt (sdiv (a :: x) (b :: y)).1 = Int.tdiv (toInt (a :: x)) (toInt (b :: y)) ∧
+    toInt (sdiv (a :: x) (b :: y)).2 = Int.tmod (toInt (a :: x)) (toInt (b :: y)) :=
+  ⟨(sdiv_spec' a b x y h hy).1 hmin, (sdiv_spec' a b x y h hy).2⟩
 
 end Arith
 end GV
